@@ -13,6 +13,9 @@ def suites : List (String × (String → String → CaseResult)) :=
   [("trie", TrieSuite.runCase)] ++
   [("eval", EvalSuite.runCase)] ++
   [("lex", LexSuite.runCase)] ++
+  [("sanitize", SanitizeSuite.runCase)] ++
+  [("autosave", AutoSaveSuite.runCase)] ++
+  [("memory", MemorySuite.runCase)] ++
   []
 
 structure DAcc where
